@@ -559,18 +559,31 @@ def judge(prop_mode, attempted, acked, intended, plain, got, outcome, policy):
             v.append(_viol("C04.beyond-damage", "%d record(s) yielded beyond the damage point at plaintext offset %d: %s" % (len(extra), stop, short(extra[0], 200)),
                            {"yielded": len(got), "expected": len(exp)}))  # fmt: skip
         else:
-            last = exp_idx[-1] if exp_idx else -1
-            for e in extra:
-                nxt = None
-                for i in range(last + 1, len(attempted)):
-                    if attempted[i] == e:
-                        nxt = i
+            # Beyond the damage point the caller kept writing.  When the frames there are still aligned (the
+            # damage was a cleanly refused frame), what may follow is a *contiguous* run of the records whose
+            # frames are on disk, in order: the reader may stop (raise) at any of them, but it may not skip a
+            # completely written one and go on.  When the stream is misaligned the looser rule applies:
+            # every extra must be some attempted record, in increasing write order.
+            after = _records_on_disk_after(plain, stop, acked)
+            if after is not None:
+                want_after = [attempted[i] for i in after]
+                if extra != want_after[: len(extra)]:
+                    j = next((k for k in range(min(len(extra), len(want_after))) if extra[k] != want_after[k]), min(len(extra), len(want_after)))
+                    v.append(_viol("C04.prefix", "after the damage point at plaintext offset %d the frames on disk hold records %s; the reader yielded %d of them but skipped or altered #%d: %s" % (
+                        stop, after[:8], len(extra), j, short(extra[j] if j < len(extra) else None, 160)), {"yielded": len(got), "expected": len(exp), "skipped_after_damage": True}))  # fmt: skip
+            else:
+                last = exp_idx[-1] if exp_idx else -1
+                for e in extra:
+                    nxt = None
+                    for i in range(last + 1, len(attempted)):
+                        if attempted[i] == e:
+                            nxt = i
+                            break
+                    if nxt is None:
+                        v.append(_viol("C04.beyond-damage", "a record was yielded after the damage point that was never written (or out of order): %s" % short(e, 200),
+                                       {"yielded": len(got), "expected": len(exp)}))  # fmt: skip
                         break
-                if nxt is None:
-                    v.append(_viol("C04.beyond-damage", "a record was yielded after the damage point that was never written (or out of order): %s" % short(e, 200),
-                                   {"yielded": len(got), "expected": len(exp)}))  # fmt: skip
-                    break
-                last = nxt
+                    last = nxt
     if clean and outcome != "end":
         v.append(_viol("C04.boundary-raises", "content is %d acknowledged frames ending exactly on a frame boundary, but reading raised %s" % (n_frames, outcome),
                        {"outcome": outcome, "frames": n_frames}))  # fmt: skip
@@ -579,6 +592,31 @@ def judge(prop_mode, attempted, acked, intended, plain, got, outcome, policy):
 
 def _viol(inv, detail, info):
     return {"invariant": inv, "detail": detail, "info": info}
+
+
+def _records_on_disk_after(plain, stop, acked):
+    """Record indices of the frames on disk after offset ``stop`` when they are all whole acknowledged
+    frames (aligned stream); None when the bytes there do not parse that way."""
+    by_bytes = {}
+    for fb, ctx in acked:
+        by_bytes.setdefault(fb, []).append(ctx)
+    pos = stop
+    out = []
+    n = len(plain)
+    while pos < n:
+        if n - pos < 4:
+            break
+        size = int.from_bytes(plain[pos : pos + 4], "big")
+        fb = plain[pos : pos + 4 + size]
+        if len(fb) < 4 + size:
+            break  # a trailing partial frame: whatever precedes it was aligned
+        if fb not in by_bytes:
+            return None
+        if _is_record_frame(fb):
+            ctxs = by_bytes[fb]
+            out.append(ctxs[0] if len(ctxs) == 1 else ctxs.pop(0))
+        pos += 4 + size
+    return out
 
 
 # -- enumeration --------------------------------------------------------------------------------
